@@ -127,14 +127,16 @@ let run (args : (string * string) list) : string =
     (* schedule independence: same values, counters and step sequence on every pool *)
     if !seen_graph <> gs then begin Hashtbl.reset seen; seen_graph := gs end;
     let key = String.concat " " [string_of_bool sym; rad; lvl; get args "tot"] in
-    let sig_keys = ["eccf"; "eccb"; "diam"; "dv"; "radius"; "ri"; "di"; "fi"; "ai"; "steps"] in
+    (* WHICH vertex attaining the diameter / radius is reported is not fixed by the property
+       (each is judged by the oracle aspects dv / rv); values, counters and steps must agree *)
+    let sig_keys = ["eccf"; "eccb"; "diam"; "radius"; "ri"; "di"; "fi"; "ai"; "steps"] in
     let signature = String.concat " " (List.map (fun k -> match get_opt args k with Some v -> k ^ "=" ^ v | None -> "") sig_keys) in
     let rv = match get_opt args "rv" with Some v -> v | None -> "" in
     (match Hashtbl.find_opt seen key with
      | None -> Hashtbl.replace seen key (signature, rv)
      | Some (s0, rv0) ->
        add "sched" (if s0 = signature then "ok" else "FAIL(differs-from-first-pool)");
-       add "schedrv" (if rv0 = rv then "ok" else "FAIL(" ^ rv0 ^ "/" ^ rv ^ ")"));
+       add "i_schedrv" (if rv0 = rv then "same" else "differs"));
     (* correspondence: replay of the OBSERVED steps on the abstract machine; every reported
        value and iteration counter must agree.  The steps come from a guarded call-out of the
        code (tokens F<v> / B<v>: visit from v; A:<p0>.<p1>...: SCC refinement step with the
@@ -192,10 +194,10 @@ let run (args : (string * string) list) : string =
           okf
           && (not (wants_eccf l) || mo.o_eccf = eccf)
           && (not (wants_eccb l) || sym || mo.o_eccb = eccb)
-          && (not (wants_diam l) || (mo.o_diam = o.o_diam && mo.o_dv = o.o_dv))
+          && (not (wants_diam l) || mo.o_diam = o.o_diam)
           && (not (wants_rad l) || mo.o_rad = o.o_rad)
           && cmp_opt "ri" c.c_ri && cmp_opt "di" c.c_di && cmp_opt "fi" c.c_fi && cmp_opt "ai" c.c_ai in
-        (vals, (not (wants_rad l)) || mo.o_rv = o.o_rv) in
+        (vals, ((not (wants_rad l)) || mo.o_rv = o.o_rv) && ((not (wants_diam l)) || mo.o_dv = o.o_dv)) in
       let rs = List.map one radials in
       add (if directed_a then "replayd" else if has_a then "replaya" else "replay") (ok (List.exists fst rs));
       if directed_a then add "i_dsteps" (string_of_int (List.length (List.filter is_a steps)));
@@ -206,8 +208,9 @@ let run (args : (string * string) list) : string =
          oracle aspect rv decides) *)
       if List.exists fst rs then begin
         let rvok = List.exists (fun (a, b) -> a && b) rs in
-        if directed_a && get_int args "pool" > 1 then add "i_rvsched" (if rvok then "same" else "differs")
-        else add "replayrv" (ok rvok)
+        (* recorded, not judged: among several vertices attaining the value the tie-break is the
+           implementation's *)
+        add (if directed_a && get_int args "pool" > 1 then "i_rvsched" else "i_replayvertices") (if rvok then "same" else "differs")
       end;
       (* information only: do the observed pivots coincide with those of the model of
          find_best_pivot (best_pivots / best_pivots_dir, which fix one tie-break)?  The state
